@@ -327,7 +327,9 @@ CONVERSION = Contract(
         "already-converted-candles-untouched": f"forall(0, c, lambda p: {UNTOUCHED('p')})",
         **{"converted:" + k: f"forall(c, n, lambda p: {fn('p')})" for k, fn in CONV_PARTS.items()},
     },
-    result_type="None", props=["C11"], use_at_calls=False)
+    # the converter object itself is stateless: a conversion depends on the candles only, whatever was converted before (other
+    # managers of a Hexital share the instance; a re-opened bucket is converted again)
+    result_type="None", props=["C11"], use_at_calls=False, pure_args=["self"])
 LOOPS[(CT + "conversion", 0)] = LoopSpec(
     invariant={
         "already-converted-candles-untouched": f"forall(0, c, lambda p: {UNTOUCHED('p')})",
